@@ -561,6 +561,8 @@ class DifferentialEvolutionHyperbandScheduler(SynchronousHyperbandCommon):
                 winner_trial_id = self._selection(trial_id, ext_slot, metric_val)
                 # Return updated slot information to bracket
                 self._return_slot_result_to_bracket(winner_trial_id, ext_slot)
+                # Remove it from pending slots
+                del self._trial_to_pending_slot[trial_id]
                 if self._support_pause_resume and ext_slot.bracket_id == 0:
                     trial_decision = SchedulerDecision.PAUSE
                 else:
